@@ -308,6 +308,24 @@ def span_engine(run, tier, seed):
     lineengine.run_engine("span", [str(seed), "250" if tier == "thorough" else "25"], describe, run, timeout=3000)
 
 
+def uniseg_engine(run, tier, seed):
+    """Function-level correspondence of the width and segmentation model (Model/Uniseg.v, Model/Grapheme.v; tables
+    regenerated from the library source by tools/gen_uniseg) with the real code: uniseg.StringWidth of every code
+    point (thorough; quick: every code point below U+3400 and of the emoji blocks, one block in sixteen of the rest), uniseg.Step iterated with carried state, and the reader's nextTokenInfo iterated with carried reader state
+    over random strings of cluster pieces, stray and truncated bytes."""
+    import lineengine
+
+    def describe(case, impl, model):
+        f = case.split()
+        what = {"1": "width of the 256 code points from U+%04X" % int(f[1]) if len(f) > 1 else "widths",
+                "2": "uniseg.Step over bytes [%s] (consumed width state property per cluster)" % " ".join(f[1:]),
+                "3": "reader tokens (mode %s) over bytes [%s] (consumed width merge state property forceMergeNext lastWasRI per token)" % (
+                    f[1] if len(f) > 1 else "?", " ".join(f[2:]))}.get(f[0] if f else "", case[:80])
+        return ("%s: model [%s] implementation [%s]" % (what[:300], model.split(" -1 ", 1)[-1][:200], impl.split(" -1 ", 1)[-1][:200]),
+                (f[0] if f else "", len(f)))
+    lineengine.run_engine("uniseg", [str(seed)] + (["20000", "1"] if tier == "thorough" else ["3000", "16"]), describe, run, timeout=3000)
+
+
 PROPS = {
     "C01": {"tags": [2], "ppref": ("C01",), "batches": [
         B("hostile", 500, 3000, tags=[]), B("mixed", 300, 1800, tags=[]), B("hostile", 150, 900, modes="1", tags=[]),
@@ -322,7 +340,8 @@ PROPS = {
         B("c03", 150, 900, step=True, kinds_wanted=[1], modes="1", tags=SCREEN + [10]),
         B("gclusters", 150, 900, modes="1", tags=SCREEN + [10]),
         B("c03", 400, 2400, step=True, kinds_wanted=[1]),
-        B("c08", 150, 900)]},   # the same writes with reads cut anywhere, also inside characters
+        B("c08", 150, 900)],   # the same writes with reads cut anywhere, also inside characters
+        "extra": [uniseg_engine]},
     "C04": {"tags": [2, 3, 7], "ppref": ("C04",), "batches": [
         B("c04", 800, 4800, step=True, kinds_wanted=[2, 3])]},
     "C05": {"tags": SCREEN, "ppref": ("C05",), "batches": [
@@ -331,7 +350,7 @@ PROPS = {
         B("c06", 800, 4800, step=True, kinds_wanted=[5, 14, 2])]},
     "C07": {"tags": [2, 3, 7], "ppref": ("C07",), "batches": [
         B("c07", 800, 4800, step=True, kinds_wanted=[6, 1, 4, 5])]},
-    "C08": {"tags": ALL, "ppref": ("C08",), "batches": [B("c08", 400, 2400), B("c08", 150, 900, modes="1", tags=ALL + [10]), B("gclusters", 150, 900, modes="1", tags=ALL + [10]), B("c08long", 40, 240, modes="01")], "extra": [grapheme_cut_engine]},
+    "C08": {"tags": ALL, "ppref": ("C08",), "batches": [B("c08", 400, 2400), B("c08", 150, 900, modes="1", tags=ALL + [10]), B("gclusters", 150, 900, modes="1", tags=ALL + [10]), B("c08long", 40, 240, modes="01")], "extra": [grapheme_cut_engine, uniseg_engine]},
     "C09": {"tags": ALL, "ppref": ("C09",), "batches": [
         B("c09", 800, 4800, step=True, kinds_wanted=[10, 13]),
         B("c09cut", 150, 900)]},   # the same sequences with reads cut anywhere, also right after ESC
